@@ -454,6 +454,62 @@ theorem C14.squeeze_two_paths_aligned (P : Part) (axis : Option (List Int))
     (hP : ∀ p ∈ P, Valid p) : squeeze2 P axis = squeeze P axis :=
   squeeze2_eq P axis hP
 
+/-! ### (8) laws of executed definitions that had no theorem before the final round -/
+
+/-- Soundness of the parameter completion of `uniform_partition` (`completeAxis`, executed by the
+driver's `uniform` operation), for EVERY request with `cell_sides` given and every tolerance:
+whatever `(min, max, n)` it returns is consistent —
+* if `min_pt` or `max_pt` was computed, `(n - (bl + br)/2) * side = max - min` holds exactly;
+* if the shape was computed, `side ≠ 0` and the computed `n` is within `eps` of
+  `(max - min)/side + (bl + br)/2` (the integrality test);
+* if all four were given, `max` is within the `np.isclose` tolerance of `min + (n - (bl+br)/2) * side`.
+So an inconsistent request is never completed silently beyond the code's stated tolerances. -/
+theorem C14.complete_axis_sound (t : Tol) (eps : Rat) (xmin xmax : Option Rat) (n : Option Int)
+    (bl br : Bool) (lo hi : Rat) (m : Int) (d : Rat)
+    (h : completeAxis t eps xmin xmax n (some d) bl br = some (lo, hi, m)) :
+    (xmin = none ∨ xmax = none → ((m : Rat) - halfCount bl br) * d = hi - lo) ∧
+    (n = none → d ≠ 0 ∧ -eps ≤ (hi - lo) / d + halfCount bl br - m ∧
+      (hi - lo) / d + halfCount bl br - m ≤ eps) ∧
+    (xmin.isSome → xmax.isSome → n.isSome →
+      rabs (hi - (lo + ((m : Rat) - halfCount bl br) * d)) ≤
+        t.atol + t.rtol * rabs (lo + ((m : Rat) - halfCount bl br) * d)) :=
+  completeAxis_sound t eps xmin xmax n (some d) bl br lo hi m d rfl h
+
+/-- the request `min=0, max=7/4, cell_sides=1/2, flags (True, False)` completes to `n = 4` -/
+example : completeAxis Tol.numpy (1 / 100000) (some 0) (some (7 / 4)) none (some (1 / 2)) true false =
+    some (0, 7 / 4, 4) :=
+  (C14.uniform_spec_agree Tol.numpy (1 / 100000) (by norm_num [Tol.numpy]) (by norm_num [Tol.numpy])
+    (by norm_num) 0 (7 / 4) (1 / 2) 4 true false (by norm_num) (by norm_num [halfCount])).2.2.2.1
+
+/-- Negative steps (`partition[a:b:-k]`, every `a`, `b`, `k ≥ 1`, every valid partition): the result
+never has two or more cells — the selected nodes would be decreasing, which `RectGrid` rejects;
+only a single-cell selection can survive. -/
+theorem C14.getitem_negative_step (P : Part1) (hv : Valid P) (start stop : Option Int) (st : Int)
+    (hst : st < 0) (Q : Part1) (h : P.getSlice start stop (some st) = some Q) : Q.n ≤ 1 :=
+  getSlice_neg_step P hv start stop st hst Q h
+
+/-- `byaxis[start:stop:step]` for arbitrary bounds (`None`, negative, clamped) and every step `≥ 1`
+or omitted, any number of axes: the result consists of exactly the axes `s, s + step, …` below `e`
+(`s, e` the clamped bounds), in this order, each unchanged. -/
+theorem C14.byaxis_slice (P : Part) (hv : ∀ p ∈ P, Valid p) (start stop step : Option Int) (st : Nat)
+    (hst : 1 ≤ st) (hstep : step.getD 1 = (st : Int)) :
+    byaxisSlice P start stop step =
+      some ((List.range (sliceLen (clampBound P.length 0 start) (clampBound P.length P.length stop) st)).filterMap
+        fun i => P[(clampBound P.length 0 start).toNat + i * st]?) :=
+  byaxisSlice_spec P hv start stop step st hst hstep
+
+/-- `byaxis[1:]` of three axes is axes 1 and 2 -/
+example (a b c : Part1) (hv : ∀ p ∈ [a, b, c], Valid p) :
+    byaxisSlice [a, b, c] (some 1) none none = some [b, c] := by
+  have := C14.byaxis_slice [a, b, c] hv (some 1) none none 1 (le_refl _) rfl
+  simpa [clampBound, sliceLen, List.range_succ] using this
+
+/-- `squeeze()` is idempotent and its result has no length-1 axis left, for every partition. -/
+theorem C14.squeeze_idempotent (P : Part) :
+    (squeeze P none).bind (fun Q => squeeze Q none) = squeeze P none ∧
+    ∀ Q, squeeze P none = some Q → ∀ p ∈ Q, 1 < p.n :=
+  squeeze_idem P
+
 /-! ### (7) sensitivity: OLD model variants of defects that were repaired in /repo
 (these three are about code that no longer exists; they document that the statements above are
 sensitive to exactly these defects) -/
